@@ -397,10 +397,10 @@ func (p *prop) Generate(rng *core.Rand, tier string, emit func(string)) {
 	for _, m := range malformed {
 		emit(m)
 	}
-	nload := n / 50
+	nload := n / 25
 	for i := 0; i < n; i++ {
 		emit(p.genCase(rng, false))
-		if i%50 == 0 && nload > 0 {
+		if i%25 == 0 && nload > 0 {
 			emit(p.genCase(rng, true))
 		}
 		if i%20 == 0 {
